@@ -1,7 +1,7 @@
 ---------------------------- MODULE MC_Grading ----------------------------
 EXTENDS Grading
 AllScripts == {"plain", "override", "override_twice", "suppress", "crashing", "formatter", "mocks", "sections",
-               "pools", "partial", "groups", "tifa_types", "classhook", "raiser_a", "raiser_b", "qpool", "plain_notifa", "cover", "vplmax@vpl", "vplplain@vpl", "greeter", "gsmax@gs", "gsplain@gs"}
+               "pools", "partial", "groups", "tifa_types", "classhook", "raiser_a", "raiser_b", "qpool", "plain_notifa", "cover", "vplmax@vpl", "vplplain@vpl", "greeter", "gsmax@gs", "gsplain@gs", "verify_native"}
 QuickScripts == {"plain", "override_twice", "suppress", "crashing", "sections", "pools", "mocks"}
 \* what each script of bind/grading.py dirties
 W == [s \in AllScripts |->
